@@ -310,4 +310,139 @@ theorem splitWs_sp (rest : Line) : splitWs (' ' :: rest) = splitWs rest := by
 
 theorem splitWs_nil : splitWs [] = [] := by simp [splitWs, splitAux]
 
+/-! ## batching -/
+
+theorem batchedF_spec {α : Type} (n : Nat) (hn : 0 < n) : ∀ (f : Nat) (xs : List α), xs.length ≤ f →
+    (batchedF n f xs).flatten = xs ∧ ∀ b ∈ batchedF n f xs, 0 < b.length ∧ b.length ≤ n := by
+  intro f
+  induction f with
+  | zero =>
+    intro xs h
+    have : xs = [] := List.eq_nil_of_length_eq_zero (by omega)
+    subst this
+    simp [batchedF]
+  | succ f ih =>
+    intro xs h
+    cases xs with
+    | nil => simp [batchedF]
+    | cons x xs =>
+      have hl : ((x :: xs).drop n).length ≤ f := by simp at h ⊢; omega
+      obtain ⟨h1, h2⟩ := ih _ hl
+      simp only [batchedF, List.isEmpty_cons, Bool.false_eq_true, if_false, List.flatten_cons]
+      refine ⟨by rw [h1, List.take_append_drop], ?_⟩
+      intro b hb
+      rcases List.mem_cons.mp hb with rfl | hb
+      · simp [List.length_take]; omega
+      · exact h2 b hb
+
+/-! ## slices and widths -/
+
+theorem slice_at (p x r : Line) (a b : Nat) (ha : p.length = a) (hb : a + x.length = b) :
+    slice a b (p ++ (x ++ r)) = x := by
+  unfold slice
+  rw [List.drop_left' ha]
+  have : b - a = x.length := by omega
+  rw [this, List.take_left' rfl]
+
+theorem capitalize_length (s : Line) : (capitalize s).length = s.length := by
+  cases s <;> simp [capitalize]
+
+/-- The rounded value still has at most 5 (4 when negative) pre-decimal digits. -/
+def CoordOk (q : Q) : Prop := q.k4 < (if q.neg then 10 ^ 8 else 10 ^ 9)
+
+instance (q : Q) : Decidable (CoordOk q) := by unfold CoordOk; infer_instance
+
+theorem fmt4_length_le (q : Q) (h : CoordOk q) : (fmt4 q).length ≤ 10 := by
+  unfold CoordOk at h
+  unfold fmt4
+  simp only [List.length_append, List.length_cons, fixedDigits_length]
+  cases hq : q.neg with
+  | true =>
+    simp only [hq, if_true] at h
+    have := natRepr_length_le 3 (q.k4 / 10000) (by omega)
+    simp; omega
+  | false =>
+    simp only [hq] at h
+    have := natRepr_length_le 4 (q.k4 / 10000) (by simp at h ⊢; omega)
+    simp; omega
+
+theorem pad3_nat_length (n : Nat) (h : n < 1000) : (padL 3 (natRepr n)).length = 3 :=
+  padL_length_of_le 3 _ (natRepr_length_le 2 n (by omega))
+
+theorem codeOfCharge_lt (c : Int) : codeOfCharge c < 10 := by
+  unfold codeOfCharge; split <;> omega
+
+theorem replicate_flatten_length (k : Nat) (s : Line) : (List.replicate k s).flatten.length = k * s.length := by
+  induction k with
+  | zero => simp
+  | succ k ih => simp [List.replicate_succ, ih, Nat.succ_mul]; omega
+
+theorem atomLineV2000_length (a : Atom) (hx : CoordOk a.x) (hy : CoordOk a.y) (hz : CoordOk a.z)
+    (he : a.elem.length ≤ 3) : (atomLineV2000 a).length = 69 := by
+  unfold atomLineV2000
+  have h1 := padL_length_of_le 10 _ (fmt4_length_le a.x hx)
+  have h2 := padL_length_of_le 10 _ (fmt4_length_le a.y hy)
+  have h3 := padL_length_of_le 10 _ (fmt4_length_le a.z hz)
+  have h4 := padR_length_of_le 3 (capitalize a.elem) (by rw [capitalize_length]; exact he)
+  have h5 := pad3_nat_length (codeOfCharge a.charge) (by have := codeOfCharge_lt a.charge; omega)
+  simp only [List.length_append, List.length_cons, h1, h2, h3, h4, h5, replicate_flatten_length]
+  simp [padL]
+
+theorem bondLineV2000_length (d : Nat) (b : Nat × Nat × Nat) (hi : b.1 < 999) (hj : b.2.1 < 999)
+    (hd : d < 1000) : (bondLineV2000 d b).length = 21 := by
+  unfold bondLineV2000
+  have h1 := pad3_nat_length (b.1 + 1) (by omega)
+  have h2 := pad3_nat_length (b.2.1 + 1) (by omega)
+  have h3 : ((codeOfBond b.2.2).getD d) < 1000 := by
+    unfold codeOfBond; split <;> simp <;> omega
+  have h3 := pad3_nat_length _ h3
+  simp only [List.length_append, h1, h2, h3, replicate_flatten_length]
+  simp [padL]
+
+theorem countsLineV2000_length (n m : Nat) (hn : n < 1000) (hm : m < 1000) :
+    (countsLineV2000 n m).length = 39 := by
+  unfold countsLineV2000
+  simp only [List.length_append, pad3_nat_length n hn, pad3_nat_length m hm]
+  rfl
+
+theorem counts_read (n m : Nat) (hn : n < 1000) (hm : m < 1000) :
+    pyInt (slice 0 3 (countsLineV2000 n m)) = some (n : Int) ∧
+    pyInt (slice 3 6 (countsLineV2000 n m)) = some (m : Int) ∧
+    getVersion (countsLineV2000 n m) = "V2000".toList := by
+  unfold countsLineV2000
+  have h1 := pad3_nat_length n hn
+  have h2 := pad3_nat_length m hm
+  refine ⟨?_, ?_, ?_⟩
+  · have := slice_at [] (padL 3 (natRepr n)) (padL 3 (natRepr m) ++ "  0     0  0  0  0  0  0  1 V2000".toList) 0 3 rfl (by omega)
+    simp only [List.nil_append, ← List.append_assoc] at this
+    rw [this, pyInt_natRepr]
+  · have := slice_at (padL 3 (natRepr n)) (padL 3 (natRepr m)) "  0     0  0  0  0  0  0  1 V2000".toList 3 6 h1 (by omega)
+    simp only [← List.append_assoc] at this
+    rw [this, pyInt_natRepr]
+  · unfold getVersion
+    have := slice_at (padL 3 (natRepr n) ++ padL 3 (natRepr m) ++ "  0     0  0  0  0  0  0  1".toList) " V2000".toList [] 33 39
+      (by simp only [List.length_append, h1, h2]; rfl) (by rfl)
+    have e : padL 3 (natRepr n) ++ padL 3 (natRepr m) ++ "  0     0  0  0  0  0  0  1 V2000".toList =
+        (padL 3 (natRepr n) ++ padL 3 (natRepr m) ++ "  0     0  0  0  0  0  0  1".toList) ++ (" V2000".toList ++ []) := by
+      simp [List.append_assoc]
+    rw [e, this]
+    decide
+
+theorem bond_read (d : Nat) (b : Nat × Nat × Nat) (hi : b.1 < 999) (hj : b.2.1 < 999) :
+    pyInt (slice 0 3 (bondLineV2000 d b)) = some ((b.1 + 1 : Nat) : Int) ∧
+    pyInt (slice 3 6 (bondLineV2000 d b)) = some ((b.2.1 + 1 : Nat) : Int) := by
+  unfold bondLineV2000
+  have h1 := pad3_nat_length (b.1 + 1) (by omega)
+  have h2 := pad3_nat_length (b.2.1 + 1) (by omega)
+  constructor
+  · have := slice_at [] (padL 3 (natRepr (b.1 + 1)))
+      (padL 3 (natRepr (b.2.1 + 1)) ++ padL 3 (natRepr ((codeOfBond b.2.2).getD d)) ++ (List.replicate 4 (padL 3 ['0'])).flatten)
+      0 3 rfl (by omega)
+    simp only [List.nil_append, ← List.append_assoc] at this
+    rw [this, pyInt_natRepr]
+  · have := slice_at (padL 3 (natRepr (b.1 + 1))) (padL 3 (natRepr (b.2.1 + 1)))
+      (padL 3 (natRepr ((codeOfBond b.2.2).getD d)) ++ (List.replicate 4 (padL 3 ['0'])).flatten) 3 6 h1 (by omega)
+    simp only [← List.append_assoc] at this
+    rw [this, pyInt_natRepr]
+
 end BiotiteModel.C18
